@@ -159,6 +159,22 @@ class SparselyBin(Factory, Container):
             out.bins[i] = Count.ed(v.entries)
         return out.specialize()
 
+
+    def _checkContentCompatible(self, other):
+        """Raise ContainerException unless the sub-aggregators of ``self`` and ``other`` can be added.
+
+        Bins are created on demand, so two operands with no bin index in common would otherwise never compare
+        their contents and merge into a container holding sub-aggregators of mixed types.
+        """
+        if self.contentType != other.contentType:
+            raise ContainerException(
+                f"cannot add {self.name}s because content type differs ({self.contentType} vs {other.contentType})"
+            )
+        mine = self.value if self.value is not None else next(iter(self.bins.values()), None)
+        theirs = other.value if other.value is not None else next(iter(other.bins.values()), None)
+        if mine is not None and theirs is not None:
+            mine.zero() + theirs.zero()
+
     @inheritdoc(Container)
     def zero(self):
         out = SparselyBin(self.binWidth, self.quantity, self.value, self.nanflow.zero(), self.origin)
@@ -178,6 +194,7 @@ class SparselyBin(Factory, Container):
                 raise ContainerException(
                     f"cannot add SparselyBins because origin differs ({self.origin} vs {other.origin})"
                 )
+            self._checkContentCompatible(other)
 
             out = SparselyBin(
                 self.binWidth,
@@ -210,6 +227,7 @@ class SparselyBin(Factory, Container):
                 raise ContainerException(
                     f"cannot add SparselyBins because origin differs ({self.origin} vs {other.origin})"
                 )
+            self._checkContentCompatible(other)
             self.entries += other.entries
             for i, v in other.bins.items():
                 if i in self.bins:
